@@ -74,6 +74,11 @@ TABLE = {
             'and nothing for a response; predicates over the element are folded under the abstract type, repeated predicates are correlated; the typed helper (handleIqRequests/handleIqType/processHandleIqResult/sendIqReply/checkIsIqRequest) is verified to mean "true => replied exactly once"; '
             'both fall-backs answer get/set once with the request id/sender and stay silent for result/error. Found 9 managers swallowing requests or answering responses (13 concrete inputs replayed), all fixed.',
             'What applications or third-party extensions do in their own handleStanza or in slots of emitted signals, and whether a reply\'s content is right, are outside the analysis.', 'DESIGN.md §2 C08'),
+    'C09': ('typestate/path exploration of the five functions that touch the unacknowledged-stanza map, abstract evaluation per (enabled, stanza) and per received tag, call-order and who-may-write rules',
+            'Static: "acknowledged" is constructed only under key <= h with report/erase paired per entry; internalSend stores (key ++counter) iff enabled && stanza and otherwise reports exactly once, for all 4 combinations; '
+            'onResumed drops the prefix covered by resumed.h before resending without renumbering and enable renumbers from a saved copy after zeroing both counters; both negotiation routes (nonza handler and SASL2/bind2 inline) reach them; '
+            'the inbound counter changes by exactly 1 for message/presence/iq and 0 for <a/>, <r/> and other nonzas, has two writers, and is what <a/> and <resume/> carry.',
+            'History-level statements (exactly the uncovered stanzas are resent for every sequence of sends, acks and losses; counter wrap) need a model of histories and are not decided.', 'DESIGN.md §2 C09'),
 }
 
 NOT_APPLICABLE_REASON = 'check not built yet in this session (see DESIGN.md); listed here until qxverif/rules/<id>.py exists'
